@@ -23,7 +23,7 @@ the presence of a timed request and the deadline has not passed; the expander's 
 (f) wildcard validation precedes the read / subscribe responders.
 """
 CLAUSES = ['a: handler capabilities constructed only by the expander', 'b: per-leaf access check incl. inductive cache', 'c: the check evaluates the ACL, timed-only and fabric-scoped rules',
-           'd: timed window enforcement', 'e: event access', 'f: wildcard validation before responding']
+           'd: timed window enforcement', 'e: event access', 'f: wildcard validation before responding', 'g: a missing FabricFiltered flag never means unfiltered']
 NOT_DECIDED = ['exact returned set and per-element status codes', 'per-cluster fabric-sensitive filtering', 'composition changing between chunks']
 MIN_OBLIGATIONS = {'q': 40, 'd': 40, 'r': 40}
 
@@ -348,6 +348,28 @@ def check(R):
         resp = [t.bb for t in sb.calls() if t.d.get('f', '') == IM + '::report_data' or t.d.get('f', '').endswith('::respond')]
         R.floor('responder call in subscribe', len(resp), 1)
         R.cut('P2', sb, 'prime the subscription', resp, 'validate_subscribe ok', lambda: R.call_guard(sb, IM + '::validate_subscribe'))
+
+    # ---- g --------------------------------------------------------------------
+    with R.clause('g'):
+        # fabric-sensitive data: the fabric filter that reaches the handlers is the request's FabricFiltered flag. A request without a
+        # (decodable) flag is refused, or treated as FILTERED - it never silently becomes "unfiltered"
+        sites = [(b, t) for b in F.bodies.values() if b.focus and b.fn.lstrip('<').startswith('im') and '::tests::' not in b.fn and '::fmt' not in b.fn for t in b.calls()
+                 if t.d.get('f', '').endswith('::fabric_filtered')]
+        R.floor('reads of the FabricFiltered flag', len(sites), 2)
+        for n, (b, t) in enumerate(sorted(sites, key=lambda x: (x[0].fn, x[1].line))):
+            tr = prims.track_result(F, b, t)
+            dflt = sorted({c[0] for c in tr.passed_to if isinstance(c[0], str) and c[0].endswith(('::unwrap_or', '::unwrap_or_default', '::unwrap_or_else', '::ok', '::unwrap'))})
+            ok_ = (bool(tr.failure) or tr.returned) and not dflt
+            why = 'the decoding error is tested / propagated' if tr.failure else 'handed on unchanged to the caller (judged at its call site)'
+            if dflt:
+                # a default is acceptable only if it is the constant `true`
+                ds = [c_ for c_ in b.calls() if (c_.d.get('f', '').endswith(tuple(dflt))) and any(x[0] == 'call' and x[2] == t.bb for x in prims.sources(b, c_.d['a'][0]))]
+                consts = [c_.d['a'][1].get('k', {}).get('v') for c_ in ds if len(c_.d['a']) > 1]
+                ok_ = bool(ds) and all(c_.d.get('f', '').endswith('::unwrap_or') for c_ in ds) and all(v == 1 for v in consts) and bool(consts)
+                why = 'defaulted to `true` (filtered)'
+            R.expect('P8', b.fn, f'FabricFiltered read #{n + 1}: a missing / undecodable flag is refused or means FILTERED', ok_, why,
+                     f'the flag is defaulted through {dflt or "?"} to something other than `true`: a request that omits FabricFiltered is served with every fabric\'s fabric-scoped entries', b.where(t.bb))
+
 
 
 def _ok_some(R, body, callee):
